@@ -33,8 +33,30 @@ def _summary_result(ex, fr):
 C.lookup('simulator', 'DeterministicSimulator._helper_simulate').opt(result=_summary_result)
 
 
-def likelihood_contract(norm, same_keys):
-    c = Contract('inference', 'DeterministicLikelihood.get_log_likelihood', ['C15'],
+def stosim(x0, p, T, k):
+    return tm.app('stosim', (x0, p, T, k), A2)
+
+
+def _summary_ssa(ex, fr):
+    """summary of SSASimulator.simulate at the call sites of the stochastic likelihood: the reported rows are a function of the interface's
+    initial state, its parameter values, the time grid and the random stream from the current position (C05 / C08)"""
+    o = _se._result_builder('SSAResult')(ex, fr)
+    sim = fr.env['sim']
+    x0 = ex.get_field(sim, 'initial_state')
+    pv = ex.get_field(sim, 'np_param_values') if isinstance(sim, Obj) and 'np_param_values' in ex.program.all_fields(sim.cls) else None
+    if isinstance(x0, Arr) and isinstance(pv, Arr):
+        ex.assume_fact(tm.eq(o.fields['simulation_result'].term, stosim(x0.term, pv.term, fr.env['timepoints'].term, ex.kappa)))
+    ex.ghost.setdefault('ssa_kappas', []).append(ex.kappa)
+    ex.kappa = ex.fresh('kappa_after_ssa', INT)
+    return o
+
+
+from contracts import simulator_ssa as _ssa        # noqa: the SSA contract whose call-site result is summarised here
+C.lookup('simulator', 'SSASimulator.simulate').opt(result=_summary_ssa)
+
+
+def likelihood_contract(norm, same_keys, stochastic=False):
+    c = Contract('inference', ('StochasticTrajectoriesLikelihood' if stochastic else 'DeterministicLikelihood') + '.get_log_likelihood', ['C15'],
                  variant='norm=%d,%s' % (norm, {True: 'same-condition-keys', False: 'different-condition-keys', 'empty': 'second-condition-empty'}[same_keys]))
 
     def cself(ex, cls):
@@ -48,9 +70,10 @@ def likelihood_contract(norm, same_keys):
                 species=list(SPECIES), reactions=[(['X'], ['Y'], 'massaction', {'k': 'a'}), (['Y'], ['Z'], 'massaction', {'k': 'b'}),
                                                   (['Z'], [], 'massaction', {'k': 'c'})],
                 parameters=[(p, ex.fresh('def_' + p, REAL)) for p in PARAMS], initial_condition_dict=x0d))
-            data = Arr(ex.fresh('data', tm.ArraySort(INT, A2)), [2, 2, 2], REAL, 'ndarray', 'data')
-            tps = Arr(ex.fresh('grids', A2), [2, 2], REAL, 'ndarray', 'grids')
-            bd = ex.instantiate(ex.program.find_class('BulkData'), [tps, data, ['Z', 'X'], 2], {})
+            nT = 3 if stochastic else 2        # (N == T would be read as one shared grid by StochasticTrajectories.set_data)
+            data = Arr(ex.fresh('data', tm.ArraySort(INT, A2)), [2, nT, 2], REAL, 'ndarray', 'data')
+            tps = Arr(ex.fresh('grids', A2), [2, nT], REAL, 'ndarray', 'grids')
+            bd = ex.instantiate(ex.program.find_class('StochasticTrajectories' if stochastic else 'BulkData'), [tps, data, ['Z', 'X'], 2], {})
             ic = [{'X': ex.fresh('icX0', REAL)}, {'Y': ex.fresh('icY1', REAL), 'X': ex.fresh('icX1', REAL)}]
             if same_keys == 'empty':          # a control trajectory without parameter condition after one with a condition
                 pc = [{'a': ex.fresh('a0', REAL)}, {}]
@@ -58,7 +81,10 @@ def likelihood_contract(norm, same_keys):
                 pc = [{'a': ex.fresh('a0', REAL)}, {'a': ex.fresh('a1', REAL)}]
             else:
                 pc = [{'a': ex.fresh('a0', REAL)}, {'b': ex.fresh('b1', REAL)}]
-            LL = ex.instantiate(cls, [], dict(model=M, init_state=ic, init_params=pc, data=bd, norm_order=norm))
+            kw = dict(model=M, init_state=ic, init_params=pc, data=bd, norm_order=norm)
+            if stochastic:
+                kw['N_simulations'] = 1
+            LL = ex.instantiate(cls, [], kw)
         finally:
             ex.force_inline = False
         LL.name = 'self'
@@ -82,9 +108,14 @@ def likelihood_contract(norm, same_keys):
             for k, v in fr.env['pc'][n].items():
                 pn = tm.store(pn, to_term(p2i[k]), v)
             Tn = tm.select(fr.env['grids'].term, tm.mk_int(n))
-            traj = detsim(x0, pn, Tn)
+            if stochastic:
+                ks = ex.ghost.get('ssa_kappas', [])
+                kap = ks[n] if n < len(ks) else ex.fresh('kappa_unknown', INT)
+                traj = stosim(x0, pn, Tn, kap)
+            else:
+                traj = detsim(x0, pn, Tn)
             for m, nm in enumerate(['Z', 'X']):
-                for t in range(2):
+                for t in range(3 if stochastic else 2):
                     d = tm.sub(tm.select(tm.select(tm.select(fr.env['data'].term, tm.mk_int(n)), tm.mk_int(t)), tm.mk_int(m)),
                                tm.select(tm.select(traj, tm.mk_int(t)), to_term(s2i[nm])))
                     ad = tm.ite(tm.lt(d, tm.mk_real(0)), tm.neg(d), d)
@@ -109,6 +140,8 @@ def likelihood_contract(norm, same_keys):
 
 
 for norm in (1, 2, 3):
+    likelihood_contract(norm, False, stochastic=True)
+    likelihood_contract(norm, 'empty', stochastic=True)
     likelihood_contract(norm, True)
     likelihood_contract(norm, False)
     likelihood_contract(norm, 'empty')
